@@ -70,7 +70,7 @@ def gen(out, tier):
         t.append("  { let mut l = big.clone(); l.extend([4usize, 16%s]); run_zeroed::<%s>(&l); #[cfg(feature = \"uninit\")] run_zeroed_rc::<%s>(&[0, 1, 2, 5, 16]); }" % (ovf, n, n))
     for z in ("Padded", "Over", "ZstOver", "(u8, u64)"):
         t.append("  run_zeroed::<%s>(&big); #[cfg(feature = \"uninit\")] run_zeroed_rc::<%s>(&[0, 1, 2, 5, 16]);" % (z, z))
-    t.append("  run_bb_str(maxlen); run_transparent_unsized(8); run_zero_guard(if thorough { 16 } else { 7 });")
+    t.append("  run_bb_str(maxlen); run_transparent_unsized(8); run_zero_guard(if thorough { 16 } else { 7 }); run_zero_guard_zst(if thorough { 16 } else { 7 });")
     for (s, a) in types:
         t.append("  row_%s(maxlen, maxspare);" % tname(s, a))
     # histories over same-layout pairs (S family <-> R family) and one pair with a different layout
